@@ -45,7 +45,8 @@ def valid_sequence(rng, role, nmsgs, max_frag=4):
 
 VIOLATIONS = ['rsv1', 'rsv2', 'rsv3', 'reserved-data', 'reserved-ctl', 'frag-ping', 'frag-close', 'big-ping', 'big-close', 'big-pong',
               'orphan-cont', 'orphan-cont-fin', 'nested-text', 'nested-bin', 'wrong-mask', 'close-1byte', 'close-badutf8', 'bad-text',
-              'bad-text-frag', 'trunc-text-final']
+              'bad-text-frag', 'trunc-text-final', 'wrong-mask-empty-ping', 'wrong-mask-empty-text', 'wrong-mask-empty-close',
+              'wrong-mask-empty-final-cont', 'wrong-mask-pong']
 
 def violation_frames(rng, role, v):
     pf = lambda op, p, **kw: peer_frame(role, op, p, **kw)
@@ -64,6 +65,11 @@ def violation_frames(rng, role, v):
     if v == 'nested-text': return [pf(1, b'a', fin=False), pf(1, b'b')]
     if v == 'nested-bin': return [pf(2, b'a', fin=False), pf(9, b''), pf(2, b'b', fin=False)]
     if v == 'wrong-mask': return [pf(1, b'm', wrong_mask=True)]
+    if v == 'wrong-mask-empty-ping': return [pf(9, b'', wrong_mask=True)]
+    if v == 'wrong-mask-empty-text': return [pf(1, b'', wrong_mask=True)]
+    if v == 'wrong-mask-empty-close': return [pf(8, b'', wrong_mask=True)]
+    if v == 'wrong-mask-empty-final-cont': return [pf(2, b'abc', fin=False), pf(0, b'', wrong_mask=True)]
+    if v == 'wrong-mask-pong': return [pf(10, b'zz', wrong_mask=True)]
     if v == 'close-1byte': return [pf(8, b'\x03')]
     if v == 'close-badutf8': return [pf(8, close_payload(1000, b'\xff\xfe'))]
     if v == 'bad-text': return [pf(1, rng.choice(BAD_UTF8))]
